@@ -63,7 +63,7 @@ MANIFEST = dict(
     '(edits, several objects, bootstrap, quick_estimate) against the closed form of the current table and Sess.run / reportedLoglike; Database.split against dbSplit.',
     design='DESIGN.md §5 C04',
     technique='Lean 4 theorems (core + Mathlib sums) over an executable model of the row partition and accumulation + differential correspondence with real BIOGEME runs',
-    note='KNOWN FINDING F-C04-3: an object built BEFORE its Database was edited (scale_column / add_column / remove) keeps the table of its construction in the engine: stale log likelihood, '
+    note='KNOWN FINDING F-C04-4: Database.split without groups slices a frame with float row labels by label (KeyError, or rows lost silently; proposed_fixes/F-C04-4.diff). KNOWN FINDING F-C04-3: an object built BEFORE its Database was edited (scale_column / add_column / remove) keeps the table of its construction in the engine: stale log likelihood, '
     'scaled = stale sum / current size, simulate out of bounds (proposed_fixes/F-C04-3.diff); session_loglike is therefore PARTIAL (guard: object in step with the table). '
     'PARTIAL: thread schedules / data races cannot be exhibited (the model uses one accumulator per thread, added after join, as read in biogeme.cc); '
     'the C++ engine is modelled, not verified; float addition is not associative (oracle tolerance 1e-10*N*max|term|).',
@@ -77,16 +77,16 @@ TRUSTED = [
     'histories: that theC.setData copies the frame (the engine never sees a later edit) and that simulate evaluates the engine\'s copy are read off the observed behaviour (stale objects), not verified; '
     'the bootstrap samples of the real run are drawn by numpy.random, those of the model are arbitrary resamplings (bootstrap_restores holds for all of them)',
     'likelihood_finite_difference_hessian is compared with the analytical Hessian at 1e-3 relative only (accuracy of finite differences is C02)',
-    'Database.split with groups: only the partition / additivity oracle (the slices by group ids are not modelled); BIOGEME.validate is not driven',
+    'Database.split with groups: only the partition / additivity oracle (the slices by group ids are not modelled); BIOGEME.validate: the optimiser is trusted to reach the closed-form estimate of a concave quadratic within 1e-5',
     'the value of an individual of panel data (PanelLikelihoodTrajectory: product over its rows) is taken from the real code and compared with the sum of the cross-sectional per-row values of the same formula (1e-9 relative); the operator itself is not modelled',
 ]
 ASSUMPTIONS = ['N >= 1 (Database refuses an empty table)', 'histories: the table is edited through the Database API only (scale_column, add_column, define_variable, remove), not by assigning to database.data directly', 'Database.split: at most as many slices as rows (hypothesis k <= N of db_split_validation_sum: no empty slice)', 'the keys of a dict are distinct (hypothesis of C04.beta_vector_order)', 'panel data: the rows of an individual are consecutive (Database.panel refuses other tables); the weight formula of panel data is a constant (the engine attaches no row to it)', 'cpu_count() >= 1', 'per-row Hessians are symmetric (hypothesis of C04.hessian_sum)']
 RULE = (
-    'table (1-40 rows, shuffled index labels) x formula family {col, quad, logit, expmix} x weight {none, column, expression} x thread counts '
+    'table (1-40 rows; row labels {range, permuted, gapped, duplicated (two files concatenated / resampled), strings, floats} - tallied) x formula family {col, quad, logit, expmix} x weight {none, column, expression} x thread counts '
     '{1,2,3,N-1,N,N+1,2N,0} x 2 permutations x one 2-4 way split; per evaluated object 1-2 dicts of the parameter point (own names alphabetical / reversed / shuffled / as typed, '
     '0-3 foreign entries first / last / anywhere, or one entry missing) handed to simulate and beta_values_dict_to_list, and the point set by name as initial values; '
     'panel tables (1-12 individuals of 1-4 rows, unsorted ids, constant weight or none) with the same formula family, all entry points scaled and unscaled, thread counts relative to the number of individuals, '
-    'one reordering keeping individuals consecutive, one split into 2-3 sets of individuals; sequences simulate / likelihood / estimate(with and without bootstrap) / likelihood / simulate on one object (cross-sectional and panel); on every object with parameters all 8 cells scaled x hessian x bhhh, and once per case check_derivatives, finite-difference Hessian, deprecated aliases, null log likelihood; histories on one Database (4-12 rows, labels shuffled): 2-3 objects (weighted or not, threads 1/2/3/0/N+1, with / without audit) x 1-3 edits {scale_column, remove, define_variable / add_column} x estimate {bootstrap, plain, quick} x queries (one cell of the option matrix + both likelihoods + simulate) on objects in step with the table, one history in three also on objects built before an edit (own process); Database.split with 2-5 slices, with / without groups; non-trivial = >= 2 rows and (T >= 2 or non-identity permutation or split)'
+    'one reordering keeping individuals consecutive, one split into 2-3 sets of individuals; sequences simulate / likelihood / estimate(with and without bootstrap) / likelihood / simulate on one object (cross-sectional and panel); on every object with parameters all 8 cells scaled x hessian x bhhh, and once per case check_derivatives, finite-difference Hessian, deprecated aliases, null log likelihood; histories on one Database (4-12 rows, labels shuffled): 2-3 objects (weighted or not, threads 1/2/3/0/N+1, with / without audit) x 1-3 edits {scale_column, remove, define_variable / add_column} x estimate {bootstrap, plain, quick} x queries (one cell of the option matrix + both likelihoods + simulate) on objects in step with the table, one history in three also on objects built before an edit (own process); Database.split with 2-5 slices, with / without groups, rows identified by a row-id column (multiset of the rows of the parts = rows of the table, labels follow rows) on all label kinds + a corpus {duplicated, float, string labels}; BIOGEME.validate(results, split(2-4)) with the closed-form estimate of every fold (every row reported once, values and labels row by row); non-trivial = >= 2 rows and (T >= 2 or non-identity permutation or split)'
 )
 
 WHERE_RETHREAD = 'simulate after number_of_threads was changed (engine thread state shared with the likelihood)'
